@@ -1152,7 +1152,16 @@ pub fn generate_read(r: &mut Rng, hi: u64, lo: u64, other: (u64, u64)) -> JsonRe
             },
             "object_unknown_field",
         ),
-        19 => (if r.bool() { format!("[{nh}]") } else { "[]".to_string() }, "array_short"),
+        19 => match r.below(3) {
+            0 => (format!("[{nh}]"), "array_short"),
+            1 => ("[]".to_string(), "array_short"),
+            _ => {
+                // one key replaced by a near-miss spelling of itself
+                let which = if r.bool() { "hi" } else { "lo" };
+                let deco = serde_json::to_string(&crate::vocab::decorated(r, which)).unwrap();
+                if which == "hi" { (format!("{{{deco}:{nh},\"lo\":{nl}}}"), "object_key_near_miss") } else { (format!("{{\"hi\":{nh},{deco}:{nl}}}"), "object_key_near_miss") }
+            }
+        },
         20 => (format!("[{nh},{nl},{nl}]"), "array_3"),
         21 => (
             (*r.pick(&["{}", "null", "1.5", "\"1 + 0.5\"", "true", "{\"hi\":null,\"lo\":0}", "{\"hi\":\"1\",\"lo\":0}", "{\"hi\":[1],\"lo\":0}", "{\"hi\":{\"hi\":1,\"lo\":0},\"lo\":0}"]))
